@@ -118,6 +118,9 @@ class SimFunction:
 
 def random_spec(rng, dim, family):
     """Generate a function spec; magnitudes O(1..10), length scales O(0.3..3)."""
+    if family == "multilinear" and rng.random() < 0.08:
+        # a constant (fill-value) profile; -1, 0 and 1 are the values error-return conventions like to use
+        return {"family": family, "terms": [{"axes": [], "c": rng.choice([-1.0, -1.0, 0.0, 1.0, 2.5])}]}
     if family == "multilinear":
         terms = []
         for r in range(dim + 1):
